@@ -5,6 +5,8 @@ package main
 //
 //	rawwr <payloadhex> dst=<iphex|nil>:<port> src=<iphex|nil>:<port>|none
 //	    -> ok <framehex> | panic          (the frame handed to the raw socket)
+//	rawcw src=<iphex|nil>:<port> warm=<n|-> rel=<digits> <payloadhex>@<iphex|nil>:<port> ...
+//	    -> ok <framehex> ...              (concurrent writers, see raw_concurrent.go)
 //	rawrd bound=<iphex|nil>:<port>|none buflen=<n> <framehex> ...
 //	    -> ok <payloadhex>@<srciphex>:<port> ... [eof] ... end | panic
 //
@@ -182,6 +184,8 @@ func execRaw(op string, args []string) string {
 			return fmt.Sprintf("writes=%d", len(w))
 		}
 		return "ok " + hx(w[0].frame)
+	case "rawcw":
+		return rawExecCW(args)
 	case "rawrd":
 		bound, buflen, frames := parseRawrd(args)
 		rs, other := realRead(bound, buflen, frames)
@@ -596,6 +600,7 @@ func enumRawwr(emit func(string)) {
 	for w := 0; w < 65536; w += 1 {
 		emit(rawwrLine([]byte{byte(w >> 8), byte(w)}, dst, &net.UDPAddr{IP: net.IP{10, 0, 0, 1}, Port: 68}))
 	}
+	rawEnumCW(func(s *rawCWScenario) { emit(rawCWLine(s)) })
 }
 
 func enumRawrd(emit func(string)) {
@@ -654,6 +659,10 @@ func init() {
 	register(&Stream{
 		Name: "rawwr",
 		Gen: func(r *Rng, thorough bool) (string, []string) {
+			if r.Chance(1, 8) {
+				s, tags := rawGenCW(r)
+				return rawCWLine(s), tags
+			}
 			p, dst, src, tags := genRawwr(r, false)
 			return rawwrLine(p, dst, src), tags
 		},
